@@ -24,10 +24,14 @@ for name in sorted(res):
     suite = r.get("suite")
     rows.append(f"| `{name}` | {'pass' if suite and suite['rc'] == 0 else ('FAILS' if suite else 'n/a')} | "
                 f"{', '.join(caught) or '**none**'}{(' (' + ', '.join(other) + ')') if other else ''} | "
-                f"{'; '.join(m.split(' x')[0] for c in r.get('checks', {}).values() for m in c['mechanisms'][:2])[:160]} | {what.replace('|', '/')} |")
+                f"{'; '.join(m.split(' x')[0] for c in r.get('checks', {}).values() for m in c['mechanisms'][:2])[:160].replace('|', '¦')} | {what.replace('|', '/')} |")
 tbl = ("| change | repo suite with it | caught by (quick tier) | first mechanisms reported | what it is |\n|---|---|---|---|---|\n" + "\n".join(rows))
 p = os.path.join(HERE, "DESIGN.md")
 s = open(p).read()
-s = re.sub(r"<!-- SELFTEST:BEGIN -->.*<!-- SELFTEST:END -->", "<!-- SELFTEST:BEGIN -->\n" + tbl + "\n<!-- SELFTEST:END -->", s, flags=re.S)
+fx = [f for f in json.load(open(os.path.join(HERE, "known_findings.json")))["findings"] if f.get("status") == "fixed"]
+ftab = ("| prop | fix commit | mechanism key reported by the check when the fix is reverted | what failed |\n|---|---|---|---|\n"
+        + "\n".join(f"| {f['property']} | `{f['commit']}` | `{f['mechanism'].replace('|', '¦')}` | {f['what'].split(' ', 3)[3].replace('|', '/')} |" for f in fx))
+s = re.sub(r"<!-- FIXES:BEGIN -->.*<!-- FIXES:END -->", lambda m: "<!-- FIXES:BEGIN -->\n" + ftab + "\n<!-- FIXES:END -->", s, flags=re.S)
+s = re.sub(r"<!-- SELFTEST:BEGIN -->.*<!-- SELFTEST:END -->", lambda m: "<!-- SELFTEST:BEGIN -->\n" + tbl + "\n<!-- SELFTEST:END -->", s, flags=re.S)
 open(p, "w").write(s)
 print(len(rows), "rows")
